@@ -497,8 +497,26 @@ func (hc *handlerCtx) checkHandler(rep *Report, key string, vals [][]byte, build
 	}
 	ch.Exec(M{"type": "AdvanceBlock", "dt": int64(10)})
 	proofs, _ := build()
+	msgVersion, msgRoot, msgHash := []byte{0}, clone(sroot), clone(bh)
+	if seq%2 == 0 {
+		// every byte field of the message carved out of ONE buffer, in the order version | storage root | proofs | block hash:
+		// each slice's capacity reaches over the fields behind it
+		buf := make([]byte, 0, 1+32*(len(vals)+2)+64)
+		buf = append(buf, 0)
+		buf = append(buf, sroot...)
+		for _, v := range vals {
+			buf = append(buf, v...)
+		}
+		buf = append(buf, bh...)
+		msgVersion, msgRoot = buf[0:1], buf[1:33]
+		proofs = nil
+		for i := range vals {
+			proofs = append(proofs, buf[33+32*i:33+32*(i+1)])
+		}
+		msgHash = buf[33+32*len(vals) : 65+32*len(vals)]
+	}
 	msg := &ophosttypes.MsgFinalizeTokenWithdrawal{Sender: c.Addr("x"), BridgeId: 1, OutputIndex: no, WithdrawalProofs: proofs, From: from, To: to, Sequence: seq,
-		Amount: sdk.NewCoin(denom, math.NewInt(1)), Version: []byte{0}, StorageRoot: clone(sroot), LastBlockHash: clone(bh)}
+		Amount: sdk.NewCoin(denom, math.NewInt(1)), Version: msgVersion, StorageRoot: msgRoot, LastBlockHash: msgHash}
 	cc, _ := ch.Ctx.CacheContext()
 	_, err = hc.ms.FinalizeTokenWithdrawal(cc, msg)
 	rep.Evaluations++
